@@ -177,6 +177,14 @@ func runFixtureCase(fc *FixtureCase, tr *Tr) error {
 				opts = append(opts, testutil.WithShardBitwidth(fc.Bitwidth))
 			}
 			de, err = testutil.UnixFSDirectory(*ls, fc.Size, opts...)
+		case "dir-named":
+			// a directory generated below a caller-chosen path (the documented way to nest generators)
+			composed = true
+			opts := []testutil.Option{testutil.WithRandReader(rnd), testutil.WithDirname("/top")}
+			if fc.Bitwidth > 0 {
+				opts = append(opts, testutil.WithShardBitwidth(fc.Bitwidth))
+			}
+			de, err = testutil.UnixFSDirectory(*ls, fc.Size, opts...)
 		case "dir-custom":
 			composed = true
 			n := 0
@@ -271,7 +279,7 @@ func init() {
 					if mod != nil {
 						mod(fc)
 					}
-					fc.ID = fmt.Sprintf("%s-%d-%d-bw%d-%v-%v-m%d", gen, fc.Seed, sz, fc.Bitwidth, fc.Sharded, fc.Excl, fc.Many)
+					fc.ID = fmt.Sprintf("%s-%d-%d-bw%d-%v-%v-m%d-%q", gen, fc.Seed, sz, fc.Bitwidth, fc.Sharded, fc.Excl, fc.Many, fc.WrapPath)
 					return runFixtureCase(fc, tr)
 				}
 				steps := []func() error{
@@ -294,6 +302,13 @@ func init() {
 						return mk("wrap", func(fc *FixtureCase) { fc.WrapPath = "/want/it/here"; fc.Excl = true })
 					},
 					func() error { return mk("wrap", func(fc *FixtureCase) { fc.WrapPath = "a/b"; fc.Size = sz % 5000 }) },
+					func() error {
+						// wrap paths that ipld path rules normalise: empty, only slashes, trailing and doubled slashes
+						p := []string{"", "/", "a/b/", "a//b", "//a"}[i%5]
+						return mk("wrap", func(fc *FixtureCase) { fc.WrapPath = p; fc.Excl = sz%2 == 0; fc.Size = 64 + sz%3000 })
+					},
+					func() error { return mk("dir-named", nil) },
+					func() error { return mk("dir-named", func(fc *FixtureCase) { fc.Bitwidth = 3 }) },
 				}
 				for _, s := range steps {
 					if err := s(); err != nil {
